@@ -119,8 +119,6 @@ def x_conformance(wd, binp, seed, names, nrand=100):
             total["samples"].append("%s: harness failed" % name)
             continue
         v = x_validate(wd, name, scens, tf)
-        if v is None:
-            continue
         if isinstance(v, str):
             total["samples"].append("%s: X-trace validation did not finish: %s" % (name, v))
             continue
